@@ -572,7 +572,11 @@ func (rule *RuleExpression) checkWorkflowCall(c *WorkflowCall) {
 			// Read the value as YAML does. A quoted value is a string. Booleans and null have several
 			// spellings (True, ~). strconv.ParseFloat also accepts texts which are strings in YAML
 			// (nan, inf, Infinity) and rejects integers like 0x10
-			if !i.Value.Quoted && v != "" {
+			if i.Value.ContainsExpression() {
+				// The value has ${{ }} but no type was returned since checking it caused some errors.
+				// They were already reported and the type of the value is unknown
+				ty = AnyType{}
+			} else if !i.Value.Quoted && v != "" {
 				var y interface{}
 				if err := yaml.Unmarshal([]byte(v), &y); err == nil {
 					switch y.(type) {
